@@ -359,6 +359,11 @@ func (l *recLock) Lock(ctx context.Context) (context.Context, error) {
 	}
 	c, err := l.DistributedLock.Lock(ctx)
 	l.rec.done(idx, err)
+	if err == nil { // "locked": the moment the lock is actually held (a "lock" event marks the request)
+		if i, e := l.rec.enter("locked", l.key, "", ""); e == nil {
+			l.rec.done(i, nil)
+		}
+	}
 	return c, err
 }
 
